@@ -817,5 +817,122 @@ pub fn run(run: &Run) {
             run.sample("rejections", 5, || json!({"text": text, "class": what}));
         }
     });
+    // ---- systematically corrupted integer literals: one character inserted at
+    // every position (or one deleted) in every radix form of every boundary value;
+    // an independent recogniser of the documented forms decides what is still a literal
+    fn ref_int(t: &str) -> Option<i64> {
+        if let Some(h) = t.strip_prefix("0x") {
+            if h.is_empty() || !h.bytes().all(|c| c.is_ascii_hexdigit()) {
+                return None;
+            }
+            return i64::from_str_radix(h, 16).ok();
+        }
+        if t.starts_with('0') {
+            if !t.bytes().all(|c| (b'0'..=b'7').contains(&c)) {
+                return None;
+            }
+            return i64::from_str_radix(t, 8).ok();
+        }
+        let d = t.strip_prefix('-').unwrap_or(t);
+        if d.is_empty() || !d.bytes().all(|c| c.is_ascii_digit()) {
+            return None;
+        }
+        t.parse::<i64>().ok()
+    }
+    let mut corrupted: Vec<(String, String)> = Vec::new();
+    for v in INT_POOL.iter().chain([10i64, 16, -16, 0o17, 0x7f].iter()) {
+        let mut forms = vec![v.to_string()];
+        if *v >= 0 {
+            forms.push(format!("0x{:x}", v));
+            forms.push(format!("0x{:X}", v));
+            forms.push(format!("0{:o}", v));
+        }
+        for f in forms {
+            let chars: Vec<char> = f.chars().collect();
+            for pos in 0..=chars.len() {
+                for ins in ['-', '+', ' ', '_', 'x', 'X', '0', '9', 'a', 'g', '.', 'o', 'b'] {
+                    let mut c = chars.clone();
+                    c.insert(pos, ins);
+                    corrupted.push((f.clone(), c.into_iter().collect()));
+                }
+                if pos < chars.len() && chars.len() > 1 {
+                    let mut c = chars.clone();
+                    c.remove(pos);
+                    corrupted.push((f.clone(), c.into_iter().collect()));
+                }
+            }
+        }
+    }
+    corrupted.sort();
+    corrupted.dedup();
+    run.exhaustive("int-corruptions", true);
+    run.note("int_corruptions", json!(corrupted.len()));
+    let num_m = eng.scheme.get_field("num_m").unwrap();
+    run.parallel("int-corruptions", corrupted.len() as u64, |i, l| {
+        let (from, lit) = &corrupted[i as usize];
+        // leading/trailing blanks are not part of the literal
+        let want = if lit.trim_matches(' ') == lit.as_str() { ref_int(lit) } else { ref_int(lit.trim_matches(' ')) };
+        for (k, tmpl) in ["num_m == {}", "(num_m == {}) and tru_m", "sum1(num_m, {}) == 0 or tru_m", "not num_m & {}", "num_m >= {} or num_m < {}"].iter().enumerate() {
+            let text = tmpl.replace("{}", lit);
+            l.evals += 1;
+            let got = guard(|| eng.scheme.parse(&text).map(|a| a.compile()).map_err(|e| e.to_string()));
+            match (&want, got) {
+                (None, Ok(Err(_))) => l.count("corrupted_int_rejected"),
+                (Some(v), Ok(Ok(f))) => {
+                    l.count("corrupted_int_still_valid");
+                    if k <= 1 {
+                        // ... and denotes exactly that value
+                        let mut ctx = wirefilter::ExecutionContext::<()>::new(&eng.scheme);
+                        let mut r9 = Rng::new(9);
+                        for fd in eng.env.fields.iter().filter(|f| !f.optional) {
+                            let fr = eng.scheme.get_field(&fd.name).unwrap();
+                            ctx.set_field_value(fr, gen_value(&mut r9, &fd.ty).to_lhs_unwrap()).unwrap();
+                        }
+                        let mut ok = true;
+                        for (x, expect) in [(*v, true), (v.wrapping_add(1), false), (v.wrapping_sub(1), false)] {
+                            ctx.set_field_value(num_m, wirefilter::LhsValue::Int(x)).unwrap();
+                            if f.execute(&ctx).ok() != Some(expect) {
+                                ok = false;
+                            }
+                        }
+                        if !ok {
+                            run.violation(
+                                "C06/wrong-decoding/corrupted-int-form",
+                                "round-trip",
+                                "int-corruptions",
+                                i,
+                                json!({"text": text, "literal": lit, "denotes": v}),
+                            );
+                        }
+                    }
+                }
+                (None, Ok(Ok(_))) => run.violation(
+                    &format!("C06/malformed-literal-accepted/int-corruption/{}", if lit.contains('-') || lit.contains('+') { "sign" } else { "other" }),
+                    "rejection",
+                    "int-corruptions",
+                    i,
+                    json!({"text": text, "literal": lit, "corrupted_from": from}),
+                ),
+                (Some(v), Ok(Err(e))) => run.violation(
+                    &format!("C06/valid-literal-rejected/int-corruption/{}", error_kind(&e)),
+                    "round-trip",
+                    "int-corruptions",
+                    i,
+                    json!({"text": text, "literal": lit, "denotes": v, "error": e}),
+                ),
+                (_, Err(p)) => run.violation(
+                    &format!("C06/panic/{}", first_line(&p)),
+                    "no-panic",
+                    "int-corruptions",
+                    i,
+                    json!({"text": text, "panic": p}),
+                ),
+            }
+        }
+        run.distinct(hash_str(lit));
+        if i % 1009 == 0 {
+            run.sample("int-corruptions", 4, || json!({"literal": lit, "corrupted_from": from, "still_a_literal": want.is_some()}));
+        }
+    });
     let _ = RType::Bool;
 }
